@@ -251,6 +251,18 @@ func c18Exec(c Case) (outs []string, fails []Failure, tags []string) {
 			if err := msg.FromEthereumTx(tx); err != nil {
 				out = "err:overflow"
 				tags = append(tags, "overflow")
+				// the property's own predicate: a signed transaction whose amounts all fit the 256-bit word (what RLP and
+				// the EVM can carry) is wrapped; only larger numbers have no envelope
+				fits := true
+				for _, x := range []*big.Int{gp, tip, cap, value, chain} {
+					if typ != 2 && (x == tip || x == cap) || typ == 2 && x == gp || typ == 0 && x == chain {
+						continue
+					}
+					fits = fits && x.BitLen() <= 256
+				}
+				if fits {
+					fails = append(fails, Failure{Signature: "C18:signed-transaction-refused-by-the-envelope", What: fmt.Sprintf("a signed type-%d transaction whose amounts fit 256 bits (value %s, gas price %s, tip %s, fee cap %s) cannot be wrapped: %v", typ, value, gp, tip, cap, err), Case: c[i : i+1]})
+				}
 				return
 			}
 			b := txCfg.NewTxBuilder()
